@@ -48,6 +48,37 @@ def family(rng, tier, forms_secret=SECRET_FORMS, forms_dh=DH_FORMS, want_pred=No
     return cs
 
 
+def corner_cases(rng, tier, want_pred=None, forms=None):
+    """honest ciphertexts that drive the Poly1305 accumulator onto a final-reduction / carry corner (≡ 0..4, p−1.. mod p, 2^128, …):
+    accepted untampered, and rejected when the authenticator is moved by the small amounts a lost carry or a skipped `− p` would
+    produce (±1, ±5, ± 2^44, ± 2^88, …).  Random keys reach these accumulators with probability ≈ 2⁻¹²⁸."""
+    cs = []
+    deltas = [1, -1, 5, -5, 4, 1 << 44, -(1 << 44), 1 << 88, -(1 << 88), 1 << 127]
+    for k in range(24 if tier == "quick" else 200):
+        for which in ("secret", "dh"):
+            I = CornerInst(rng, which)
+            for form in OPEN_FORMS:
+                if forms is not None and form not in forms:
+                    continue
+                f = form.split(" ")[0]
+                if "seal" in f:
+                    continue    # the sealed-box key is not the one the corner was solved for
+                uses_secret_key = f.startswith("secretbox") or f.startswith("sbobj")
+                if uses_secret_key != (which == "secret"):
+                    continue
+                ct = I.sb if uses_secret_key else I.bx
+                cs.append(Case(open_line(form, I), cls="corner-untampered/" + f, expect=(lambda a, e="ok " + hx(I.msg): a == e),
+                               meta={"why": "an honest ciphertext whose Poly1305 accumulator is ≡ %d (mod 2^130−5) before the final reduction was refused" % I.target}))
+                tag = int.from_bytes(ct[:16], "little")
+                for d in deltas:
+                    t2 = ((tag + d) % (1 << 128)).to_bytes(16, "little") + ct[16:]
+                    initial = (t2[16:] if "detached" in f else t2) if "inplace" in f else buf(len(t2) - 16)
+                    pred = want_pred(initial) if want_pred else (lambda a: a.startswith("err"))
+                    cs.append(Case(open_line(form, I, ct=t2), cls="corner-tag-moved/" + f, expect=pred,
+                                   meta={"why": "authenticator moved by %d on a corner accumulator was accepted" % d}))
+    return cs
+
+
 def large_cases(rng, want_pred=None):
     """beyond every small-length sweep: bodies just above 64 KiB, one corruption each, every classic open form"""
     cs = []
@@ -75,7 +106,7 @@ def large_cases(rng, want_pred=None):
 
 
 def gen(rng, tier):
-    cs = corpus_cases("C02") + family(rng, tier) + large_cases(rng)
+    cs = corpus_cases("C02") + family(rng, tier) + large_cases(rng) + corner_cases(rng, tier)
     if streamfam:
         cs += streamfam.tamper_cases(rng, tier)
     return cs
@@ -89,9 +120,32 @@ def run(tier, seed, prop="C02", want_pred=None, forms=None):
     if prop == "C02":
         cases = gen(rng, tier)
     else:
-        cases = corpus_cases(prop) + family(rng, tier, forms_secret=[f for f in SECRET_FORMS if f in forms], forms_dh=[f for f in DH_FORMS if f in forms], want_pred=want_pred) + large_cases(rng, want_pred)
+        cases = corpus_cases(prop) + family(rng, tier, forms_secret=[f for f in SECRET_FORMS if f in forms], forms_dh=[f for f in DH_FORMS if f in forms], want_pred=want_pred) + large_cases(rng, want_pred) + corner_cases(rng, tier, want_pred, forms)
         if streamfam:
             cases += streamfam.tamper_cases(rng, tier, c17=True)
+            cases += streamfam.short_buffer_cases(rng, c17=True)
+        # an UNDERSIZED message buffer handed to a classic opening form together with a tampered (or genuine) ciphertext: a panic is
+        # the documented caller contract for most forms; whatever the outcome, an error must leave the buffer as it was
+        for n in (1, 5, 16, 17, 40):
+            I = Inst(rng, n, style=0)
+            for form in forms:
+                f = form.split(" ")[0]
+                if "inplace" in f or "obj" in f:
+                    continue
+                sealed = "seal" in f
+                ct = I.sealed if sealed else (I.sb if f.startswith("secretbox") else I.bx)
+                over = 48 if sealed else 16
+                for short in sorted({1, n // 2 or 1, n}):
+                    for tam in (True, False):
+                        c = bytearray(ct)
+                        if tam:
+                            c[over + rng.randrange(n)] ^= 1 << rng.randrange(8)
+                        mb = buf(n - short)
+                        line = open_line(form, I, ct=bytes(c), mbuf=mb)
+                        if line is None:
+                            continue
+                        pr = (lambda a, p0=want_pred(mb): a == "panic" or p0(a))
+                        cases.append(Case(line, cls="short-buffer/" + f, expect=pr, meta={"panic_ok": True, "no_sodium": True, "no_spec": True, "why": "undersized message buffer: panic (caller contract) or an error that leaves the buffer untouched"}))
     errcases = []
     if prop == "C17":
         # the ERROR VALUE is a caller-visible output too: its text must not describe the rejected data.  For each form and length the
